@@ -72,7 +72,7 @@ func genCase(t *rapid.T) Case {
 		c.Fault.Mask = []byte{byte(rapid.IntRange(1, 255).Draw(t, "m0")), rapid.Byte().Draw(t, "m1"), rapid.Byte().Draw(t, "m2")}
 	}
 	c.Access = accesses[rapid.IntRange(0, len(accesses)-1).Draw(t, "access")]
-	c.SeekMode = []string{"before", "inside", "start"}[rapid.IntRange(0, 2).Draw(t, "seekmode")]
+	c.SeekMode = []string{"before", "inside", "start", "back", "back"}[rapid.IntRange(0, 4).Draw(t, "seekmode")]
 	c.SkipIndex = rapid.IntRange(0, 3).Draw(t, "skipindex") == 0
 	c.Async = rapid.IntRange(0, 3).Draw(t, "async") == 0
 	c.Batch = []int{1, 7, 64, 500}[rapid.IntRange(0, 3).Draw(t, "batch")]
@@ -155,6 +155,7 @@ func runCase(c Case, o *kit.Obs) *kit.Failure {
 	feat := fmt.Sprintf("{access=%s,dict=%v,index=%v}", c.Access, isDict, !c.SkipIndex)
 
 	// choose the seek target (row within the row group)
+	ahead := int64(-1) // "back" mode: row beyond the faulted page visited first
 	seek := int64(-1)
 	touched := true
 	if c.Access == "Rows+seek" || c.Access == "Reader+seek" || c.Access == "Pages+seek" {
@@ -176,6 +177,12 @@ func runCase(c Case, o *kit.Obs) *kit.Failure {
 			switch c.SeekMode {
 			case "before":
 				seek = firstRow * int64(c.Fault.Off) / 999
+			case "back":
+				// first a seek beyond the faulted page and a read there, then back into it
+				seek = firstRow + (lastRow-firstRow)/2
+				if lastRow < rgRows {
+					ahead = lastRow + (rgRows-lastRow)*int64(c.Fault.Off)/1000
+				}
 			case "start":
 				seek = firstRow
 			default:
@@ -216,6 +223,35 @@ func runCase(c Case, o *kit.Obs) *kit.Failure {
 		r := f.RowGroups()[gi].Rows()
 		defer r.Close()
 		cursor := int64(0)
+		buf := make([]parquet.Row, c.Batch)
+		if ahead >= 0 {
+			// reads beyond the faulted page do not touch it: they must succeed with the true rows
+			// (with the page index; without it the pages in between are crossed, and checked, on the way)
+			if err := r.SeekToRow(ahead); err != nil {
+				if errors.Is(err, parquet.ErrCorrupted) {
+					readErr = err
+					break
+				}
+				return kit.Failf("c13/unexpected-error"+feat, "SeekToRow(%d) beyond the faulted page: %v", ahead, err)
+			}
+			n, err := r.ReadRows(buf[:1])
+			if errors.Is(err, parquet.ErrCorrupted) {
+				readErr = err
+				break
+			}
+			if n == 1 {
+				got, serr := pq.Streams(cols, []parquet.Row{buf[0]})
+				if serr != nil {
+					return kit.Failf("c13/altered-data"+feat, "malformed row beyond the faulted page: %v", serr)
+				}
+				if d := pq.DiffStreams(cols, wantRows[rgBase+ahead], got); d != "" {
+					return kit.Failf("c13/altered-data"+feat, "row %d beyond the faulted page: %s", ahead, d)
+				}
+			} else if err != nil && !errors.Is(err, io.EOF) {
+				return kit.Failf("c13/unexpected-error"+feat, "read at row %d beyond the faulted page: %v", ahead, err)
+			}
+			o.Class("seek-beyond-then-back")
+		}
 		if seek >= 0 {
 			if err := r.SeekToRow(seek); err != nil {
 				readErr = err
@@ -223,7 +259,6 @@ func runCase(c Case, o *kit.Obs) *kit.Failure {
 			}
 			cursor = seek
 		}
-		buf := make([]parquet.Row, c.Batch)
 		for {
 			n, err := r.ReadRows(buf)
 			for j := 0; j < n; j++ {
@@ -320,6 +355,27 @@ func runCase(c Case, o *kit.Obs) *kit.Failure {
 		p := f.RowGroups()[gi].ColumnChunks()[ci].Pages()
 		defer p.Close()
 		cursor := int64(0)
+		if ahead >= 0 {
+			if err := p.SeekToRow(ahead); err != nil {
+				if errors.Is(err, parquet.ErrCorrupted) {
+					readErr = err
+					break
+				}
+				return kit.Failf("c13/unexpected-error"+feat, "Pages.SeekToRow(%d) beyond the faulted page: %v", ahead, err)
+			}
+			pg, err := p.ReadPage()
+			if errors.Is(err, parquet.ErrCorrupted) {
+				readErr = err
+				break
+			}
+			if err != nil && !errors.Is(err, io.EOF) {
+				return kit.Failf("c13/unexpected-error"+feat, "ReadPage at row %d beyond the faulted page: %v", ahead, err)
+			}
+			if pg != nil {
+				parquet.Release(pg)
+			}
+			o.Class("seek-beyond-then-back")
+		}
 		if seek >= 0 {
 			if err := p.SeekToRow(seek); err != nil {
 				readErr = err
